@@ -23,6 +23,7 @@ META = {
     ),
     "assumptions": ["canonical outcome = class/str/accessors of returned objects, or exception class + message", "each history runs in its own fresh interpreter"],
     "prelude": False,
+    "threads_copy": False,
     "min_distinct": {"quick": 30000, "thorough": 600000},
 }
 SIZES = {"quick": dict(perms=16, firsts=40, pool="quick"), "thorough": dict(perms=200, firsts=400, pool="thorough")}
